@@ -589,3 +589,28 @@ fn nested<H: HK>(
     r
 }
 
+
+
+/// Shared "states reached through a crash recovery" tier of the checks that are not about crashes themselves:
+/// for one case in `modulus` the last operation of the history is crashed at every I/O event boundary and every
+/// recovered store is judged by `verify_dir` (root / seqn / values / proofs / a further model-checked commit or
+/// rollback / decoder / allocation / utilisation). Returns the number of recovered stores judged.
+pub fn recovery_tier(hist: &History, ctx: &crate::runner::Ctx, modulus: u64, max_images_quick: usize, tag: &str) -> Result<Option<u64>, Violation> {
+    if hist.salt % modulus != 0 || hist.steps.len() < 2 {
+        return Ok(None);
+    }
+    let fc = FaultCase { hist: hist.clone(), choice_seed: hist.salt };
+    let fp = FaultParams {
+        mode: Mode::Crash,
+        max_images: ctx.tier.pick(max_images_quick, 300),
+        nested: 1,
+        max_nested_images: 8,
+        randoms: 1,
+    };
+    let r = match hist.cfg.hasher {
+        crate::reftrie::HasherKind::Blake3 => run_fault_case::<crate::driver::B3>(&fc, &fp, &ctx.scratch),
+        crate::reftrie::HasherKind::Sha2 => run_fault_case::<crate::driver::S2>(&fc, &fp, &ctx.scratch),
+    };
+    let ci = r.map_err(|v| Violation { step: v.step, msg: format!("[{tag}] {}", v.msg) })?;
+    Ok(Some(ci.labels.get("images_verified").copied().unwrap_or(0)))
+}
